@@ -357,6 +357,83 @@ theorem C18_published_types :
       "routing.serviceRoute", "routing.staticPatternRoutingTable", "routing.targetPatternRoutes"] := by decide
 
 
+/-- WaitGroup discipline of every function that starts goroutines from literals and defers `wg.Wait()`: each of its
+    goroutine literals defers `wg.Done()` (regenerated; with `C18_hb_waitgroup`: everything the goroutines did
+    happens-before the function's return). Covers `ProxyForwarder.Forward` and the reflection client's request pumps. -/
+theorem C18_waitgroup_discipline :
+    (GB.Generated.goJoins.all fun j => !j.2.1.contains "wait:$wg" || (j.2.2.length > 0 && j.2.2.all fun l => l.2.contains "done:$wg")) = true ∧
+    (GB.Generated.goJoins.filter fun j => j.2.1.contains "wait:$wg").map (·.1) =
+      ["grpcadapter.ProxyForwarder.Forward", "reflection.client.execFileDescriptorRequests"] := by decide
+
+/-- The construction-time write of the wake-up channel: `Build` calls `newResolveNow` on the still unpublished Resolver and the
+    `go r.watch()` statement FOLLOWS it (`C18_hb_spawn`: the poller's first step comes after the spawn). -/
+theorem C18_build_write_then_spawn :
+    ∃ w, w ∈ C18_table ∧ w.fn = "reflection.Resolver.newResolveNow" ∧ w.write = true ∧ w.fresh = true ∧
+      w.roots = ["reflection.ResolverBuilder.Build"] ∧ w.post.contains "go:reflection.Resolver.watch" = true := by
+  refine ⟨⟨"reflection.Resolver.resolveNow", "reflection.Resolver.newResolveNow", true, [], [], true, [],
+    ["go:reflection.Resolver.watch", "store:reflection.Resolver.notifyResolveNow"], ["reflection.ResolverBuilder.Build"]⟩,
+    ?_, rfl, rfl, rfl, rfl, ?_⟩
+  · decide +kernel
+  · decide
+
+/-! ### The wake-up chain, composed from the ordering lemmas (all well-formed traces) -/
+
+theorem C18_run_split (s0 s1 : HB.St) (X Y : List HB.Ev) (e : HB.Ev) (h : HB.run s0 (X ++ e :: Y) = some s1) :
+    ∃ sB sC, HB.run s0 X = some sB ∧ HB.step sB e = some sC := by
+  rw [HB.run_append] at h
+  cases hx : HB.run s0 X with
+  | none => simp [hx] at h
+  | some sB =>
+    simp only [hx, Option.bind_some, HB.run] at h
+    cases hs : HB.step sB e with
+    | none => simp [hs] at h
+    | some sC => exact ⟨sB, sC, rfl, hs⟩
+
+/-- write → read: if every store of the closure value `v` into the atomic `x` is preceded (program order of `newResolveNow`) by
+    the plain write `w` of the channel field, then in EVERY well-formed trace the write has happened before a caller's load
+    observes `v` — and the closure's read comes after that load in the caller's program order. -/
+theorem C18_wakeup_write_before_read (X Y : List HB.Ev) (s0 s1 : HB.St) (p c x v w : Nat)
+    (hrun : HB.run s0 (X ++ HB.Ev.load c x v :: Y) = some s1) (hx : s0.val x ≠ v)
+    (hpo : ∀ t U1 U2, X = U1 ++ HB.Ev.store t x v :: U2 → HB.Ev.acc p w ∈ U1) : HB.Ev.acc p w ∈ X := by
+  obtain ⟨sB, sC, hX, hs⟩ := C18_run_split s0 s1 X Y _ hrun
+  obtain ⟨t', m1, m2, hm⟩ := C18_hb_atomic_store_load X s0 sB sC c x v hX hx hs
+  have := hpo t' m1 m2 hm
+  rw [hm]; exact List.mem_append_left _ this
+
+/-- read → next write: if every `close` of the wake-up channel is preceded (program order of the once-closure) by the closure's
+    read `r` of the channel field, then in EVERY well-formed trace that read has happened before the poller's receive observes
+    the close — and the re-arming write comes after that receive in the poller's program order (the CHECKED `recv` in `pre`). -/
+theorem C18_wakeup_read_before_rearm (X Y : List HB.Ev) (s0 s1 : HB.St) (p c ch r : Nat)
+    (hrun : HB.run s0 (X ++ HB.Ev.recvClosed p ch :: Y) = some s1) (hopen : s0.closed ch = false)
+    (hpo : ∀ t U1 U2, X = U1 ++ HB.Ev.close t ch :: U2 → HB.Ev.acc c r ∈ U1) : HB.Ev.acc c r ∈ X := by
+  obtain ⟨sB, sC, hX, hs⟩ := C18_run_split s0 s1 X Y _ hrun
+  obtain ⟨t', m1, m2, hm⟩ := C18_hb_close_recv X s0 sB sC p ch hX hopen hs
+  have := hpo t' m1 m2 hm
+  rw [hm]; exact List.mem_append_left _ this
+
+/-- "pump, then handler after Forward returned": if every `Done` of the WaitGroup is preceded by the pump's write `a`, the write
+    has happened before `Wait` returns (counter positive when the pump was started). -/
+theorem C18_pump_write_before_wait (X Y : List HB.Ev) (s0 s1 : HB.St) (h g wgp a : Nat)
+    (hrun : HB.run s0 (X ++ HB.Ev.wgWait h wgp :: Y) = some s1) (hpos : s0.wg wgp ≠ 0)
+    (hpo : ∀ t U1 U2, X = U1 ++ HB.Ev.wgDone t wgp :: U2 → HB.Ev.acc g a ∈ U1) : HB.Ev.acc g a ∈ X := by
+  obtain ⟨sB, sC, hX, hs⟩ := C18_run_split s0 s1 X Y _ hrun
+  obtain ⟨t', m1, m2, hm⟩ := C18_hb_waitgroup X s0 sB sC h wgp hX hpos hs
+  have := hpo t' m1 m2 hm
+  rw [hm]; exact List.mem_append_left _ this
+
+/-- sync.WaitGroup, full form: when `Wait` returns, at least as many `Done`s have happened since any earlier point as the counter
+    held there — with ONE deferred `Done` per pump goroutine (`C18_waitgroup_discipline`) that is every pump's `Done`. -/
+theorem C18_hb_waitgroup_all (mid : List HB.Ev) (sA sB sC : HB.St) (t w : Nat)
+    (hmid : HB.run sA mid = some sB) (hq : HB.step sB (.wgWait t w) = some sC) :
+    sA.wg w ≤ HB.wgDones w mid := by
+  have hB : sB.wg w = 0 := by
+    have := (HB.step_core hq).1; simp only [HB.stepCore] at this; split at this
+    · assumption
+    · cases this
+  have := HB.wg_balance mid sA sB w hmid
+  omega
+
+
 /-! ## CONFINEMENT BACKING block: the non-mutex ordering arguments of `GB.C18.confinement`, as theorems of the
     models that own them
 
